@@ -3,7 +3,7 @@ from analysis.facts import callee, callee_short, tyname
 from analysis.cfg import cfg
 from analysis.defuse import Tracer, fields_of
 from analysis.guards import GuardFlow
-from analysis.fieldcov import fields_read
+from analysis.fieldcov import fields_read, _places_read, fields_in_place
 from analysis.tables import const_strings_of_operand
 
 
@@ -119,6 +119,34 @@ def run(chk, prog):
         chk.decide(RA, chk.key(RA, 'cache-computed-from-eq-fields'), bool(reads) and reads <= eqr | {'components_string'},
                    'the cache is computed from %s (eq compares %s)' % (sorted(reads), sorted(eqr)),
                    'the text cache is computed from %s but eq compares %s' % (sorted(reads), sorted(eqr)), gcs.loc(0))
+
+    # the cache is not observable: nothing but its producer (and Clone) reads it, in particular not eq / cmp
+    CACHE_READERS = {'Path::get_components_string': 'the producer', '<Path as Clone>::clone': 'copies the cache with the value',
+                     '<Path as Default>::default': 'empty cache'}
+    n_readers = 0
+    for fn in prog.fns.values():
+        if fn.crate != 'bladeink' or fn.parent:
+            continue
+        # reads of the cache through a value the function was given (not through one it has just built)
+        where = None
+        for g in prog.with_closures(fn):
+            for bb, si, st in g.stmts():
+                if st['k'] != 'assign':
+                    continue
+                for pl in _places_read(st):
+                    if 'components_string' in fields_in_place(pl, 'Path'):
+                        base = {'k': 'copy', 'pl': {'l': pl['l']}}
+                        if g.parent or pl['l'] <= g.body['argc'] or any(a.startswith('arg:') for a in tr.prov(g, base)):
+                            where = where or g.loc(bb, si)
+        if where:
+            n_readers += 1
+            chk.decide(RA, chk.key(RA, 'cache-reader', fn.short), fn.short in CACHE_READERS,
+                       CACHE_READERS.get(fn.short, ''),
+                       '%s reads the lazily filled text cache Path::components_string: whether the cache has been filled '
+                       'depends on the history of the value (printing, saving, hashing), so two paths denoting the same '
+                       'position can be told apart (a derived PartialEq compares it: a path no longer equals the path '
+                       'parsed back from its own text)' % fn.short, where)
+    chk.floor(RA, 'readers of the path text cache', n_readers, 1)
 
     # ---------------- (b)
     parser = prog.fn('Path::new_with_components_string')
